@@ -84,7 +84,7 @@ impl World for C15 {
     }
     fn budget(&self, tier: Tier) -> (u64, u64) {
         match tier {
-            Tier::Quick => (3000, 40),
+            Tier::Quick => (9000, 40),
             Tier::Thorough => (40_000, 900),
         }
     }
